@@ -62,7 +62,7 @@ static unsigned long rnd(unsigned long m) { return m ? (unsigned long)(seam::nex
 static json vec_j(const std::vector<mpz_ptr> &v) { json a = json::array(); for (size_t k = 0; k < v.size(); k++) a.push_back(mpz2l(v[k])); return a; }
 static json qual_j(const std::vector<size_t> &q) { json a = json::array(); for (size_t k = 0; k < q.size(); k++) a.push_back(q[k]); return a; }
 
-struct Cfg { std::string proto; size_t n, t, trbc; std::vector<int> role; /* 0 honest, 1 lib-faulty, 2 silent, 3 tampered dealer, 4 crashes after some sends */ long tamper_from, tamper_to; unsigned long seed; bool rndorder; std::vector<long> cut_after; };
+struct Cfg { std::string proto; size_t n, t, trbc; std::vector<int> role; /* 0 honest, 1 lib-faulty, 2 silent, 3 tampered dealer, 4 crashes after some sends, 5 honest key generation but a damaged share when signing */ long tamper_from, tamper_to; unsigned long seed; bool rndorder; std::vector<long> cut_after; };
 
 static const long GROUPS[][3] = { {2063, 1031, 2}, {46199, 23099, 2}, {46327, 1103, 42}, {23, 11, 2}, {47, 23, 2} };
 
@@ -118,6 +118,7 @@ static void run_exec(std::ofstream &out, const Cfg &c, long gi) {
 					o["ret"] = ret; o["qual"] = qual_j(nts.QUAL); o["x"] = mpz2l(nts.z_i); o["y"] = mpz2l(nts.y); o["yi"] = vec_j(nts.y_i);
 					if (ret) {
 						sc.barrier(i, [&]() { Mpz tmp; size_t l = 0; rbc->Deliver(tmp, l, aiounicast::aio_scheduler_roundrobin, 0); });
+						if (c.role[i] == 5) mpz_add_ui(nts.z_i, nts.z_i, 1UL);       // signs with a wrong share
 						Mpz m(msgval), cc, ss;
 						hc = json::array();
 						bool sret = nts.Sign(m, cc, ss, aiou, rbc, err, faulty);
@@ -145,6 +146,7 @@ static void run_exec(std::ofstream &out, const Cfg &c, long gi) {
 				o["xq"] = qual_j(dss.dkg->x_rvss->QUAL);     // who was qualified in the sharing of x (before the extraction of y)
 				if (ret) {
 					sc.barrier(i, [&]() { Mpz tmp; size_t l = 0; rbc->Deliver(tmp, l, aiounicast::aio_scheduler_roundrobin, 0); });
+					if (c.role[i] == 5) mpz_add_ui(dss.x_i, dss.x_i, 1UL);           // signs with a wrong share
 					Mpz m(msgval), rr, ss;
 					bool sret = dss.Sign(n, i, m, rr, ss, aiou, rbc, err, faulty);
 					o["m"] = msgval; o["sret"] = sret; o["r"] = num(rr); o["s"] = num(ss);
@@ -193,7 +195,7 @@ int main(int argc, char **argv) {
 			c.trbc = std::min(c.t, (c.n - 1) / 3);
 			c.role.assign(c.n, 0); c.tamper_from = c.tamper_to = -1; c.cut_after.assign(c.n, -1);
 			size_t nf = std::min(c.t, (c.n - 1) / 3);          // faults within both bounds
-			size_t kind = rnd(7);                              // 0 none, 1 lib, 2 silent, 3 tamper, 4 mixed, 5 crash mid-way, 6 wrong share then crash
+			size_t kind = rnd(8);                              // 0 none, 1 lib, 2 silent, 3 tamper, 4 mixed, 5 crash mid-way, 6 wrong share then crash, 7 damaged share when signing
 			c.cut_after.assign(c.n, -1);
 			if (nf > 0 && kind > 0) {
 				size_t cnt = 1 + rnd(nf);
@@ -202,6 +204,7 @@ int main(int argc, char **argv) {
 					if (kind == 1) c.role[who] = 1;
 					else if (kind == 2) c.role[who] = 2;
 					else if (kind == 3) { c.tamper_from = (long)who; c.tamper_to = (long)((who + 1 + rnd(c.n - 1)) % c.n); c.role[who] = 3; break; }
+					else if (kind == 7) c.role[who] = (proto == "nts" || proto == "dss") ? 5 : 1;
 					else if (kind == 5) { c.role[who] = 4; c.cut_after[who] = (long)(1 + rnd(40 * c.n)); }
 					else if (kind == 6) { c.role[who] = 4; c.tamper_from = (long)who; c.tamper_to = (long)((who + 1 + rnd(c.n - 1)) % c.n); c.cut_after[who] = (long)(c.n + rnd(12 * c.n)); break; }
 					else c.role[who] = 1 + (int)rnd(2);
